@@ -1,11 +1,12 @@
-(* C08 — decoding is strict on required/type errors (proved for every schema)
-   and lossless on valid documents (proved for the documents the encoder
-   produces: C06_roundtrip; for arbitrary valid documents the statement is
-   checked by the correspondence run, not proved — partial). *)
+(* C08 — decoding is strict on required/type errors (proved for every schema),
+   accepts every valid document (proved for every well-formed schema:
+   C08_valid_accepted) and is lossless (proved for the documents the encoder
+   produces: C06_roundtrip; that an ARBITRARY valid document re-encodes to an
+   equivalent value is checked by the correspondence run, not proved — partial). *)
 From Coq Require Import List ZArith.
 Import ListNotations.
 From Goag Require Import Base.Str Model.Params Model.Json Spec.JsonSpec
-     Proofs.JsonEncProofs Proofs.JsonRtProofs Proofs.JsonStrictProofs Model.OneOf Proofs.OneOfProofs.
+     Proofs.JsonEncProofs Proofs.JsonRtProofs Proofs.JsonStrictProofs Proofs.JsonCompleteProofs Model.OneOf Proofs.OneOfProofs.
 
 (* a document that lacks a required property is rejected *)
 Theorem C08_missing_required : forall parse_num parse_time ms addl members k sf v,
@@ -56,3 +57,14 @@ Theorem C08_oneof_unknown_discriminator : forall parse_num parse_time o key case
   dec_oneof parse_num parse_time o j = ErrOther.
 Proof. exact oneof_disc_unknown. Qed.
 Print Assumptions C08_oneof_unknown_discriminator.
+
+(* every document that is valid for the schema (Spec/JsonSpec.v: required
+   present, null only where nullable, declared types and formats, allOf = all
+   members, undeclared keys typed by additionalProperties, no duplicate keys)
+   decodes without error — whatever subset of the optional properties it holds,
+   in whatever member order, with whatever extra keys the schema allows *)
+Theorem C08_valid_accepted : forall parse_num parse_time s j,
+  wf_sch s -> validates parse_num parse_time s j = true ->
+  exists v, dec parse_num parse_time s j = Ok v.
+Proof. exact valid_accepted. Qed.
+Print Assumptions C08_valid_accepted.
